@@ -598,7 +598,7 @@ def build(ast, world: World):
         return t.Mapping[args[0], args[1]]
     if k == 'opt':
         return t.Optional[args[0]]
-    if k == 'union':
+    if k in ('union', 'runion'):
         return t.Union[tuple(args)]  # type: ignore
     if k == 'vol':
         from pane.types import ValueOrList
@@ -738,7 +738,7 @@ def sample_value(ast, world: World, rng, valid_p=0.8, alphabet='mixed', depth=0)
         return d
     if k == 'opt':
         return None if rng.random() < 0.3 else rec(ast[1])
-    if k == 'union':
+    if k in ('union', 'runion'):
         return rec(rng.choice(ast[1:]))
     if k == 'lit':
         return dec(rng.choice(ast[1:]))
@@ -951,29 +951,62 @@ def _gen_type(rng, world: World, kinds, scalars, depth=0, max_depth=3, top=True,
     return ['s', rng.choice(scalars)]
 
 
-def _world_dependent(ast) -> bool:
-    return contains(ast, lambda a: a[0] in ('cls', 'gen', 'gen2', 'enum', 'ref'))
+def _flatten_union_members(ast, out):
+    """Members of a union/optional expression, nested unions flattened (as typing does)."""
+    if ast[0] == 'union':
+        for a in ast[1:]:
+            _flatten_union_members(a, out)
+    elif ast[0] == 'opt':
+        _flatten_union_members(ast[1], out)
+        out.append(['s', 'none'])
+    else:
+        out.append(ast)
 
 
 def normalise_unions(ast):
     """
-    typing caches `Annotated[...]`, `List[...]`, `Optional[...]` and friends by *equality* of their arguments,
-    and unions compare as sets: `List[Union[A, B]]` built after `List[Union[B, A]]` is the first object again.
-    For unions of scalars that conflation is the same in every world of one process; for unions of classes
-    defined per world it is not, and a freshly defined equivalent would come out in the other order.  So the
-    generator spells every union that mentions a class / enum / root in one canonical member order.
+    One canonical spelling per set of members.
+
+    typing caches `List[...]`, `Optional[...]`, `Annotated[...]`, `Generic[...]` aliases by *equality* of their
+    arguments; unions and literals compare as sets.  So `List[Union[str, int]]` built after
+    `List[Union[int, str]]` *is* the first object, and which member order a type has depends on what the
+    process built before - typing's conflation, not pane's, and pane cannot see it (it receives one object).
+    The reference worlds (freshly defined classes; a pristine process) do not share that cache state, so the
+    workload never spells one member set in two orders: unions are flattened, de-duplicated and sorted,
+    literal values sorted.  The one deliberate exception is the `runion` node used by the subscript-reorder
+    scenario (top-level parameters of a generic dataclass, where typing's caches are not involved).
     """
     import json
     k = ast[0]
-    if k in ('s', 'cls', 'enum', 'lit', 'ref', 'tv'):
+    if k in ('s', 'cls', 'enum', 'ref', 'tv'):
         return ast
+    if k == 'lit':
+        vals = []
+        for v in ast[1:]:
+            if v not in vals or any(type(v) is not type(w) for w in vals if w == v):
+                vals.append(v)
+        return ['lit'] + sorted(vals, key=lambda v: json.dumps([type(v).__name__, v]))
     if k == 'dl':
         return ['dl', [[n, normalise_unions(a)] for (n, a) in ast[1]]]
     if k == 'ann':
         return ['ann', normalise_unions(ast[1]), ast[2]]
+    if k in ('union', 'opt'):
+        members = []
+        _flatten_union_members(ast, members)
+        out = []
+        for m in members:
+            m = normalise_unions(m)
+            if m[0] == 'union':           # a member that normalised into a union again: flatten
+                for mm in m[1:]:
+                    if mm not in out:
+                        out.append(mm)
+            elif m not in out:
+                out.append(m)
+        out.sort(key=lambda a: json.dumps(a, sort_keys=True))
+        return out[0] if len(out) == 1 else ['union'] + out
     start = {'gen': 2, 'gen2': 2, 'tagged': 3}.get(k, 1)
     kids = [normalise_unions(a) for a in ast[start:]]
-    if k in ('union', 'tagged') and any(_world_dependent(a) for a in kids):
+    if k == 'tagged':
         kids = sorted(kids, key=lambda a: json.dumps(a, sort_keys=True))
     return ast[:start] + kids
 
@@ -1078,6 +1111,8 @@ def gen_class_spec(rng, world: World, name, kinds, scalars, generic_p=0.25, inhe
     spec = {'name': name, 'fields': fields, 'opts': {k: v for (k, v) in opts.items() if v is not None},
             'tv': tv, 'base': base, 'custom': rng.choice(list(custom_specs)),
             'post_init': 'first_nonneg' if rng.random() < 0.15 else None}
+    for f in spec['fields']:
+        f['t'] = normalise_unions(f['t'])
     if tag_p and rng.random() < tag_p and not tv and not base and 'tuple' not in in_format and not opts.get('rename'):
         # a literal tag field with a default: the class can be a member of a tagged union
         spec['fields'].append({'n': 'kind', 't': ['lit', 'k' + name], 'd': 'k' + name})
